@@ -403,16 +403,18 @@ CODEC_TB = COMMON_TB + [
 ]
 
 PROPS["C01"] = {
-    "lean_modules": ["Stef.Props.C01", "Stef.Props.C01Enc"],
+    "lean_modules": ["Stef.Props.C01", "Stef.Props.C01Enc", "Stef.Props.C01Api"],
     "harness": [{"bin": "h_codec", "args": ["roundtrip"], "oracle_prefixes": ["sd decode", "sd values"]}],
     "rule": ("cases = type-directed random histories on otelstef Metrics and Spans writers (wide value distributions: all "
              "float classes, integer extremes/wrapping deltas, repeated strings, lengths across 0/1/62/63/64/65, nested "
              "AnyValue, frozen shared dict structs, CopyFrom) x writer options (none/zstd, frame limits 0..64K, dict limits, "
              "all restart-flag subsets, descriptor, user data) x Flush placement; each stream is decoded by the Go reader AND by "
              "the Lean specification decoder and both must equal the records set; non-trivial = >= 2 writes with a top-level "
-             "field left unmodified and a dictionary reference; distinct by hash of the stream"),
-    "trusted_base": CODEC_TB,
-    "assumptions": ["memory aliasing (values of earlier records staying unchanged) is checked by the harness only"],
+             "field left unmodified and a dictionary reference; distinct by hash of the stream. Every history is also replayed call by call on the Lean record API model (op `ap`, harness/internal/recgen/serialize.go): same top-level mask and record dump at every Write, same frame contents byte for byte; histories with a call the model does not describe are dropped whole and counted (input_distribution api-histories-unsupported, api-unsupported-<reason>)"),
+    "trusted_base": CODEC_TB + ["Stef/Api.lean: hand transcription of stefc/templates/go/{struct,oneof,array,multimap}.go.tmpl and pkg/modifiedfields.go (record state with hidden parts and marks, public calls, Write), tied by op `ap`"],
+    "assumptions": ["memory aliasing (values of earlier records staying unchanged) is checked by the harness only",
+                    "record API theorems: CopyFrom is proved for schemas without dictionary structs only; in-place modification of a "
+                    "dictionary struct through a getter is outside the model"],
     "level_text": ("Proved for all inputs (Props/C01Enc.lean, over the schema-generic encoder model Stef/SpecEnc.lean and the "
                    "specification decoder Stef/Spec.lean): encode_decode_node(_framed) - for every schema, node kind (primitive, "
                    "struct with mask and optional fields, dictionary struct, oneof, array, multimap in its three forms, recursion), "
@@ -423,9 +425,15 @@ PROPS["C01"] = {
                    "effective values, no error, no dictionary violation). Props/C01.lean keeps roundtrip_struct_of_primitives over "
                    "the register-level codecs and setter_marks_changes. Tie: `se reencode` regenerates every frame of every harness "
                    "stream byte-exactly with the model encoder from the marks the model decoder recorded, and `sd decode` decodes "
-                   "it. NOT a theorem: that the generated record API (setters, CopyFrom, EnsureLen, Append, frozen sharing) always "
-                   "leaves sound marks - decided on the real code by the random histories with the Lean decoder as independent "
-                   "oracle (14 defects of that family found and repaired in /repo, none open); encoder totality; zstd."),
+                   "it. Record API (Props/C01Api.lean over the model Stef/Api.lean, DESIGN 0.2b): call_preserves_sound (every public call "
+                   "except CopyFrom, any path / arguments / schema / state, keeps the marks sound against the reader's value), "
+                   "copyFrom_preserves_sound_partial (CopyFrom, schemas without dictionary structs), write_sound (sound marks => the "
+                   "proved encoder's effective value shows the record; record left unmarked and in sync; dictionaries in step), "
+                   "write_keeps_value, tree_ok, new_record_in_sync, api_marks_sound_partial and api_stream_roundtrip_partial (every "
+                   "history over any frames / restart flags: decodeStream returns records that show exactly the records written; "
+                   "hypothesis Covered = no CopyFrom, or no dictionary struct in the schema). The model is tied to the generated code "
+                   "call by call and byte for byte (op `ap`). NOT a theorem: CopyFrom on schemas with dictionary structs (tie only; 14 "
+                   "mark defects were found and repaired in /repo before, none open); encoder totality; zstd."),
 }
 
 PROPS["C02"] = {
@@ -546,7 +554,7 @@ PROPS["C10"] = {
 }
 
 PROPS["C04"] = {
-    "lean_modules": ["Stef.Props.C04"],
+    "lean_modules": ["Stef.Props.C04", "Stef.Props.C04Down"],
     "harness": [],
     "runner": "hgen", "runner_args": ["c04"], "oracle_prefixes": ["sd decode", "sd values"],
     "rule": ("cases = pairs (A, B) where B is A plus 1..4 fields appended to the end of random structs/oneofs (primitives, "
@@ -565,8 +573,11 @@ PROPS["C04"] = {
                     "that implication is not itself a Lean theorem (different schema types); without them the statement is FALSE "
                     "(forward_needs_dictInj, forward_needs_closed: two kernel-checked counterexamples at the level of the "
                     "specification decoder, not reachable from IDL-generated schemas)",
-                    "everything about the Go WRITER's downgrade (keepFieldMask) is not proved; that direction is decided per pair by "
-                    "the cross-package runs with the Lean decoder as oracle",
+                    "downgrade: the theorems are about the Lean encoder model on A's tree fed the PROJECTED history (restrict / "
+                    "restrictMk = what the Go writer's keepFieldMask, presence masking and `typ > fieldCount -> None` do; "
+                    "keep_mask_is_projection, keepFieldMask_is_go); that the Go writer of package B run with WriterOptions.Schema = A "
+                    "IS this model is tied by the runs (sd decode expects restrictDump of the truths, se reencode regenerates every "
+                    "downgraded stream byte-exactly with the A encoder, equal to the downgrade encoding by downgrade_stream_bytes)",
                     "init_with_override is a theorem about the Lean specification decoder's traversal (Spec.mkNode); that the "
                     "generated Init of the Go packages performs this traversal is tied by the runs (column layout agreement on "
                     "every stream), not proved", "a pair that stefc refuses is counted and skipped",
@@ -581,9 +592,13 @@ PROPS["C04"] = {
                    "error to the same number of records, the same root masks and, record by record, A's value extended by B-only "
                    "fields (simulation of decodeNode / the list decoders / decodeRecords / the frame loop with restart flags / "
                    "decodeStream over a typed relation KRel, Proofs/Forward*.lean); the unrestricted ForwardStatement is proved "
-                   "FALSE (forwardStatement_false) with the two counterexamples that show why each hypothesis is needed. NOT proved: "
-                   "the writer's downgrade; it is evaluated on code generated for both versions with the "
-                   "Lean decoder as independent oracle. The two defects this found (downgrade-presence-overflow, "
+                   "FALSE (forwardStatement_false) with the two counterexamples that show why each hypothesis is needed. DOWNGRADE "
+                   "(Props/C04Down.lean, same hypotheses): downgrade_records - the stream the B encoder produces on A's tree from the "
+                   "projected history is byte for byte the ordinary A encoding (downgrade_stream_bytes), decodeStream A reads it "
+                   "without error, dictViolations = 0, to the restricted records (downgrade_records_sound, under sound marks) with "
+                   "root masks taken mod 2^|A's fields| (downgrade_root_masks); the unprojected history is REFUSED by the encoder "
+                   "model (encode_refuses_wide_mask / _presence / _alternative). Both directions are also evaluated on code generated "
+                   "for both versions with the Lean decoder as independent oracle. The two defects this found (downgrade-presence-overflow, "
                    "too-new-descriptor-accepted-via-multimap-key) are repaired in /repo (891ea3b, 6e4a662) and tracked as fixed."),
 }
 
